@@ -187,5 +187,39 @@ def run_modes(ctx, prop, modes, extract_v, driver_ml, hsrc, hname):
     return r
 
 
+def run_yield_to(ctx, r):
+    """replay of the model witness C01_sched_single_runner_yield_to_refuted on the real runtime (harness/c01_yieldto.cpp:
+    static scheduler, 4 workers, hook 112 parks the worker between store_state(pending_boost) and set_state(pending));
+    deterministic by construction: every process either prints `double_run` (hook 110 sees a second worker about to resume
+    the coroutine another worker is executing; the process leaves before the resume) or says which step did not happen"""
+    hy = ctx.build_harness('c01_yieldto', 'c01_yieldto.cpp')
+    trials = 3 if ctx.tier == 'quick' else 20
+    seen = 0
+    for k in range(trials):
+        rc, out = sh([hy, str(ctx.seed * 100 + k)], timeout=60)
+        lines = [x for x in out.split('\n') if x.startswith('YT ')]
+        r.evaluations += 1
+        rep = {'harness': 'c01_yieldto', 'args': [ctx.seed * 100 + k], 'observed': lines[-1] if lines else out[-300:]}
+        if lines and ' double_run ' in lines[-1]:
+            seen += 1
+            r.nontrivial('yield_to witness trial %d' % k)
+            r.count('yield_to_replay=double_run')
+            if seen == 1:
+                r.hits.append(Hit('monitor', 'C01:yield_to:double_run',
+                                  'this_thread::yield_to(T) left a duplicate handle of T (its queue entry); T yielded with pending_boost, '
+                                  'a set_thread_state(T, pending) fell between store_state(pending_boost) and thread_data::set_state(pending): '
+                                  'the holder of the duplicate ran T, set_state(pending) overwrote `active`, T was pushed and a second worker '
+                                  'won the pending->active CAS while the first is inside the coroutine [%s]' % lines[-1], rep))
+                r.sample(rep)
+        elif lines and ' no_double_run ' in lines[-1]:
+            r.count('yield_to_replay=no_double_run')
+            r.notes.append('yield_to witness not reproduced in trial %d: %s' % (k, lines[-1]))
+        else:
+            r.hits.append(Hit('tie', 'C01:yield_to_harness', 'c01_yieldto ended with status %d: %s' % (rc, out[-300:]), rep))
+
+
 def run(ctx):
-    return run_modes(ctx, 'C01', ['c01', 'guard'], 'ExtractC01.v', 'drv_c01.ml', 'c01_trace.cpp', 'c01_trace')
+    r = run_modes(ctx, 'C01', ['c01', 'guard'], 'ExtractC01.v', 'drv_c01.ml', 'c01_trace.cpp', 'c01_trace')
+    if not ctx.replay:
+        run_yield_to(ctx, r)
+    return r
